@@ -36,6 +36,7 @@ type c13kOp struct {
 
 type c13kCase struct {
 	W   []int    `json:"w"`
+	Dup []int    `json:"dup,omitempty"` // [i, w]: a last entry repeats the host of node i with weight w
 	P   int      `json:"p"`
 	Ops []c13kOp `json:"ops"`
 }
@@ -599,16 +600,44 @@ func c13kInterp(t *testing.T, c c13kCase) (v kit.Verdict) {
 	var conf Config
 	ref := hash.NewConsistentHash()
 	byAddr := map[string]int{}
-	positive := 0
+	eff := append([]int{}, c.W...)
+	overflow := false
 	for i := 0; i < n; i++ {
 		c13kSrv[i].FlushAll()
 		addr := c13kSrv[i].Addr()
 		byAddr[addr] = i
 		conf = append(conf, cache.NodeConfig{Config: redis.Config{Host: addr, Type: redis.NodeType}, Weight: c.W[i]})
 		ref.AddWithWeight(addr, c.W[i])
-		if c.W[i] > 0 {
+		overflow = overflow || c.W[i] > 1<<40
+	}
+	if len(c.Dup) == 2 {
+		addr := c13kSrv[c.Dup[0]].Addr()
+		conf = append(conf, cache.NodeConfig{Config: redis.Config{Host: addr, Type: redis.NodeType}, Weight: c.Dup[1]})
+		ref.AddWithWeight(addr, c.Dup[1])
+		eff[c.Dup[0]] = c.Dup[1]
+		classes["duplicate-host"] = true
+	}
+	positive, negative := 0, 0
+	for _, w := range eff {
+		if w > 0 {
 			positive++
+		} else if w < 0 {
+			negative++
+			classes["negative-weight"] = true
 		}
+	}
+	if positive == 0 && negative > 0 { // only negative weights count: whether such a node receives keys is not determined
+		overflow = true
+	}
+	classes["nodes:"+strconv.Itoa(n)] = true
+	if _, refOK := ref.Get("any key"); positive == 0 && !overflow {
+		if refOK {
+			return v.Failf("no node of positive weight is configured (effective weights %v) but the reference ConsistentHash names a node", eff)
+		}
+		classes["no-positive-node"] = true // every command must fail without reaching a server
+	}
+	if overflow { // weight * replicas overflows, or only negative weights are left: not determined, run for panics only
+		classes["undetermined-weights:panics-only"] = true
 	}
 	store := New(conf)
 	want := func(key string) int {
@@ -655,6 +684,9 @@ func c13kInterp(t *testing.T, c c13kCase) (v kit.Verdict) {
 		}
 		after := counts()
 		classes["cmd:"+o.C] = true
+		if overflow {
+			continue
+		}
 		wantNodes := map[int]bool{}
 		for _, key := range keys {
 			wantNodes[want(key)] = true
@@ -680,19 +712,42 @@ func c13kInterp(t *testing.T, c c13kCase) (v kit.Verdict) {
 			}
 		}
 	}
+	if positive == 0 {
+		// no node of positive weight: every command of the table (both forms) must return
+		// without reaching a server (judged only when the weights are determined) and without panicking
+		before := counts()
+		for _, cmd := range c13kTable {
+			key := c13kKey(c, 0)
+			for j, name := range c13kFamilies {
+				if name == cmd.fam {
+					key = c13kKey(c, j*c13kPerFam)
+				}
+			}
+			cmd.run(store, context.Background(), false, key, 1)
+			cmd.run(store, context.Background(), true, key, 2)
+		}
+		_, _ = store.Del(c13kKey(c, 0), c13kKey(c, 4))
+		after := counts()
+		classes["no-node:all-commands"] = true
+		for s := 0; s < n && !overflow; s++ {
+			if after[s] != before[s] {
+				return v.Failf("no node of positive weight is configured (effective weights %v) but node %d (%s) processed %d command(s) during the sweep over all commands", eff, s, c13kSrv[s].Addr(), after[s]-before[s])
+			}
+		}
+	}
 	v.NonTrivial = positive >= 2 && len(fams) >= 4
 	return v
 }
 
 func c13kGen(rt *rapid.T) c13kCase {
-	n := rapid.SampledFrom([]int{2, 3, 3, 4, 4}).Draw(rt, "nodes")
+	n := rapid.SampledFrom([]int{2, 3, 3, 4, 4, 2, 3, 4, 1}).Draw(rt, "nodes")
 	c := c13kCase{P: rapid.IntRange(0, 1<<20).Draw(rt, "prefix")}
 	pos := 0
 	for i := 0; i < n; i++ {
 		w := 100
 		switch rapid.IntRange(0, 5).Draw(rt, "wsel") {
 		case 0:
-			w = 0
+			w = rapid.SampledFrom([]int{0, 0, 0, 0, 0, -1, -30, -100}).Draw(rt, "w0")
 		case 1, 2:
 			w = rapid.IntRange(1, 100).Draw(rt, "w")
 		}
@@ -703,6 +758,25 @@ func c13kGen(rt *rapid.T) c13kCase {
 	}
 	if pos == 0 {
 		c.W[0] = 100
+	}
+	switch rapid.Uint64().Draw(rt, "special") % 24 /* rapid favours small values: the special configurations sit on the large residues */ {
+	case 18, 19, 20, 21: // a duplicate entry for one host
+		c.Dup = []int{rapid.IntRange(0, n-1).Draw(rt, "dupof"), rapid.SampledFrom([]int{0, 0, 1, 50, 100, -1}).Draw(rt, "dupw")}
+	case 22: // the only positive node is re-added with weight 0 by a duplicate entry: no node is left
+		for i := range c.W {
+			if i > 0 && c.W[i] > 0 {
+				c.W[i] = 0
+			}
+		}
+		c.W[0] = 100
+		c.Dup = []int{0, 0}
+	case 23: // one weight whose product with the replicas overflows, nothing else positive (the sum must not overflow)
+		for i := range c.W {
+			if c.W[i] > 0 {
+				c.W[i] = 0
+			}
+		}
+		c.W[0] = 1 << 62
 	}
 	nkeys := len(c13kFamilies) * c13kPerFam
 	nops := rapid.IntRange(8, 30).Draw(rt, "nops")
